@@ -481,19 +481,21 @@ impl Filter {
                     }
                 } else {
                     filter.payload = Some(s.clone());
-                    filter.payload_as_regex = Some(
-                        regex::RegexBuilder::new(&regex::escape(s))
-                            .case_insensitive(true)
-                            .build()
-                            .map_err(|e| {
-                                quick_xml::Error::IllFormed(
-                                    quick_xml::errors::IllFormedError::MissingEndTag(format!(
-                                        "regex error parsing escaped '{}':{:?}",
-                                        s, e
-                                    )),
-                                )
-                            })?,
-                    );
+                    if filter.ignore_case_payload {
+                        filter.payload_as_regex = Some(
+                            regex::RegexBuilder::new(&regex::escape(s))
+                                .case_insensitive(true)
+                                .build()
+                                .map_err(|e| {
+                                    quick_xml::Error::IllFormed(
+                                        quick_xml::errors::IllFormedError::MissingEndTag(format!(
+                                            "regex error parsing escaped '{}':{:?}",
+                                            s, e
+                                        )),
+                                    )
+                                })?,
+                        );
+                    }
                 }
             }
         }
